@@ -149,7 +149,7 @@ def render(beh):
             b, _ = ref_text(vars_, st["v2"], st["e2"])
             path = st["path"]
             var = vars_[st["v"] - 1]
-            if path == "own" and st["v"] == st["v2"] and var["k"] == "obj" and var["cls"] == "QU":
+            if path == "own" and st["v"] == st["v2"] and st["e"] != st["e2"] and var["k"] == "obj" and var["cls"] == "QU":
                 lines.append("v%d.ocx(%d);" % (st["v"], st["e"] - 1))
             elif path == "fn":
                 lines.append("fcx(%s, %s);" % (a, b))
